@@ -33,6 +33,22 @@
 (* have moved on: the diff is never computed again, TLC rejects it (Reconciled).                 *)
 (* Recover = TRUE is the pinned tree: Init/Inherit/CloseWithRecovery recover a panicking         *)
 (* callback; FALSE models the loss of that recovery (the handler dies).                          *)
+(*                                                                                              *)
+(* Registration of a watcher (ObjectRegistry.NewWatcher) is an action of its own: the registry   *)
+(* goroutine is started (`go or.run()`) before the supervisor registers its watcher, and the     *)
+(* RawConfigTrafficController registers its watcher only when it is initialised as a system      *)
+(* controller, so any number of snapshots may have been applied to the registry before a watcher *)
+(* exists, and further ones may arrive at any moment of the registration.  NewWatcher            *)
+(*   (1) filters the registry's entities into the watcher's entity map,                          *)
+(*   (2) sends them as the first event (always, even if empty) and                               *)
+(*   (3) adds the watcher to or.watchers.                                                        *)
+(* AtomicRegister = TRUE is the code: (1)-(3) in one critical section of or.mutex (Register).    *)
+(* FALSE is the shape in which (1)+(2) work on a copy taken under the lock and (3) happens later *)
+(* (RegCopy, then RegDone): an applyConfig in between moves the registry on, the watcher, not    *)
+(* yet in or.watchers, gets no event, and because only diffs against or.entities are ever sent   *)
+(* the watcher never catches up: TLC rejects it (Reconciled / NoForbiddenCallback).              *)
+(* In the contract the group of objects of a watcher begins (CBegin) when its watcher takes its  *)
+(* view of the registry.                                                                         *)
 EXTENDS Lifecycle, TLC
 
 CONSTANTS Watchers,             \* subset of {"sup", "rctc"}
@@ -40,12 +56,14 @@ CONSTANTS Watchers,             \* subset of {"sup", "rctc"}
           KindChangeIsUpdate,
           Recover,
           ChanCap,              \* buffer of ObjectEntityWatcher.eventChan
-          DropWhenFull          \* FALSE: blocking send (the code); TRUE: non-blocking send that drops the event
+          DropWhenFull,         \* FALSE: blocking send (the code); TRUE: non-blocking send that drops the event
+          AtomicRegister        \* TRUE: NewWatcher is one critical section (the code); FALSE: copy, then register later
 
 StoreOf(k) == IF k \in BizKinds THEN "biz" ELSE IF k \in PipeKinds THEN "pipe" ELSE "gate"
 Stores == {"biz", "gate", "pipe"}
 (* FilterCategory(CategoryBusinessController) / FilterCategory(CategoryTrafficGate, CategoryPipeline) *)
 Wants(w, k) == IF w = "sup" THEN k \in BizKinds ELSE k \notin BizKinds
+GroupOfWatcher(w) == IF w = "sup" THEN "biz" ELSE "traf"
 
 NoEnt == NoInst      \* an ObjectEntity is [k, v, born]: spec + the instance created with it
 NoMap == [x \in Names |-> NoEnt]
@@ -56,6 +74,7 @@ VARIABLES entities,   \* ObjectRegistry.entities
           queue,      \* watcher -> eventChan
           cur,        \* watcher -> event being handled (on = FALSE: none)
           store,      \* "biz": Supervisor.businessControllers; "gate"/"pipe": Namespace.trafficGates/.pipelines
+          reg,        \* watcher -> "no": not created; "copied": has its first view, not in or.watchers; "yes": in or.watchers
           dead,       \* watcher -> its goroutine died of an unrecovered panic
           npanic,     \* scripted panics used
           bad,        \* a callback was made that the contract does not allow
@@ -63,9 +82,9 @@ VARIABLES entities,   \* ObjectRegistry.entities
 
 NameSym == Permutations(Names)     \* the names are interchangeable (SYMMETRY in the MC configs)
 
-ivars == <<entities, wents, queue, cur, store, dead, npanic, bad, badcb>>
+ivars == <<entities, wents, queue, cur, store, reg, dead, npanic, bad, badcb>>
 vars == <<cvars, ivars>>
-view == <<snap, clive, step, pend, entities, wents, queue, cur, store, dead, npanic, bad>>
+view == <<snap, clive, step, pend, begun, since, entities, wents, queue, cur, store, reg, dead, npanic, bad>>
 
 IInit ==
     /\ CInit
@@ -74,6 +93,7 @@ IInit ==
     /\ queue = [w \in Watchers |-> <<>>]
     /\ cur = [w \in Watchers |-> NoEvent]
     /\ store = [s \in Stores |-> NoMap]
+    /\ reg = [w \in Watchers |-> "no"]
     /\ dead = [w \in Watchers |-> FALSE]
     /\ npanic = 0 /\ bad = FALSE /\ badcb = [op |-> "none"]
 
@@ -88,6 +108,7 @@ ApplyConfig(s, pan) ==
         asCreate == changed \ asUpdate
         asDelete == gone \cup (IF KindChangeIsUpdate THEN {} ELSE swapped)
         Ev == [w \in Watchers |->
+               IF reg[w] # "yes" THEN NoEvent ELSE          \* `for _, watcher := range or.watchers`
                  [on  |-> TRUE,
                   del |-> [x \in Names |-> IF x \in asDelete /\ Wants(w, entities[x].k) THEN entities[x] ELSE NoEnt],
                   cre |-> [x \in Names |-> IF x \in asCreate /\ Wants(w, s[x].k) THEN NewEnt(x) ELSE NoEnt],
@@ -101,7 +122,8 @@ ApplyConfig(s, pan) ==
     /\ entities' = [x \in Names |-> IF x \in gone THEN NoEnt ELSE IF x \in changed THEN NewEnt(x) ELSE entities[x]]
     (* per watcher: deleted, then created, then updated names are applied to watcher.entities *)
     /\ wents' = [w \in Watchers |-> [x \in Names |->
-                     IF Ev[w].cre[x] # NoEnt THEN Ev[w].cre[x]
+                     IF reg[w] # "yes" THEN wents[w][x]
+                     ELSE IF Ev[w].cre[x] # NoEnt THEN Ev[w].cre[x]
                      ELSE IF Ev[w].upd[x] # NoEnt THEN Ev[w].upd[x]
                      ELSE IF Ev[w].del[x] # NoEnt THEN NoEnt
                      ELSE wents[w][x]]]
@@ -109,21 +131,40 @@ ApplyConfig(s, pan) ==
     /\ queue' = [w \in Watchers |-> IF Empty(Ev[w]) \/ (DropWhenFull /\ Full(w)) THEN queue[w] ELSE Append(queue[w], Ev[w])]
     /\ npanic' = npanic + Cardinality(pan)
     /\ CSnapshot(s)                                   \* the contract takes note of the snapshot
-    /\ UNCHANGED <<cur, store, dead, bad, badcb>>
+    /\ UNCHANGED <<cur, store, reg, dead, bad, badcb>>
+
+(* ---- ObjectRegistry.NewWatcher ---- *)
+FirstView(w) == [x \in Names |-> IF entities[x] # NoEnt /\ Wants(w, entities[x].k) THEN entities[x] ELSE NoEnt]
+FirstEvent(w) == [on |-> TRUE, del |-> NoMap, cre |-> FirstView(w), upd |-> NoMap, pan |-> {}]
+TakeView(w, r) ==
+    /\ reg[w] = "no"
+    /\ reg' = [reg EXCEPT ![w] = r]
+    /\ wents' = [wents EXCEPT ![w] = FirstView(w)]
+    /\ queue' = [queue EXCEPT ![w] = <<FirstEvent(w)>>]      \* a fresh channel: the send never waits
+    /\ CBegin(GroupOfWatcher(w))                           \* (the first event's entities were born at since[x])
+    /\ UNCHANGED <<entities, cur, store, dead, npanic, bad, badcb>>
+Register(w) == AtomicRegister /\ TakeView(w, "yes")
+RegCopy(w)  == ~AtomicRegister /\ TakeView(w, "copied")
+RegDone(w)  ==
+    /\ reg[w] = "copied"
+    /\ reg' = [reg EXCEPT ![w] = "yes"]
+    /\ UNCHANGED <<cvars, entities, wents, queue, cur, store, dead, npanic, bad, badcb>>
 
 (* ---- the handlers ---- *)
+(* (an event without entries - only the first event of a watcher can be one - is handled by doing nothing) *)
 Start(w) ==
     /\ ~dead[w] /\ ~cur[w].on /\ queue[w] # <<>>
-    /\ cur' = [cur EXCEPT ![w] = Head(queue[w])]
+    /\ LET e == Head(queue[w]) IN
+       cur' = [cur EXCEPT ![w] = IF e.del = NoMap /\ e.cre = NoMap /\ e.upd = NoMap THEN NoEvent ELSE e]
     /\ queue' = [queue EXCEPT ![w] = Tail(@)]
-    /\ UNCHANGED <<cvars, entities, wents, store, dead, npanic, bad, badcb>>
+    /\ UNCHANGED <<cvars, entities, wents, store, reg, dead, npanic, bad, badcb>>
 
 (* a callback is made: compare with the contract; `p`: the callback panics *)
 Call(cb, p) ==
     /\ IF Allowed(cb)
        THEN pend' = pend \ {cb} /\ done' = done \cup {cb} /\ UNCHANGED <<bad, badcb>>
        ELSE bad' = TRUE /\ badcb' = cb /\ UNCHANGED <<pend, done>>
-    /\ UNCHANGED <<snap, clive, step>>
+    /\ UNCHANGED <<snap, clive, step, begun, since>>
 NoCall == UNCHANGED <<cvars, bad, badcb>>
 
 (* remove item x of loop `f` from the current event; the goroutine is free again when all is done *)
@@ -138,11 +179,11 @@ Step(w, f, x, cb, called, newStoreVal, st) ==
     THEN (* unrecovered panic: the process is gone; nothing after the call happens *)
          /\ Call(cb, TRUE)
          /\ dead' = [v \in Watchers |-> TRUE]
-         /\ UNCHANGED <<cur, store, entities, wents, queue, npanic>>
+         /\ UNCHANGED <<cur, store, entities, wents, queue, reg, npanic>>
     ELSE /\ (IF called THEN Call(cb, x \in cur[w].pan) ELSE NoCall)
          /\ store' = (IF called THEN [store EXCEPT ![st][x] = newStoreVal] ELSE store)
          /\ cur' = [cur EXCEPT ![w] = Consumed(w, f, x)]
-         /\ UNCHANGED <<dead, entities, wents, queue, npanic>>
+         /\ UNCHANGED <<dead, entities, wents, queue, reg, npanic>>
 
 (* for name := range event.Delete: LoadAndDelete; missing -> "BUG"/error, continue; CloseWithRecovery *)
 HDelete(w, x) ==
@@ -176,6 +217,7 @@ PanSets(s) == {p \in SUBSET {x \in Names : Trans(snap[x], s[x]) \notin {"absent"
 
 INext ==
     \/ (step < MaxSnaps /\ \E s \in Snapshots : \E pan \in PanSets(s) : ApplyConfig(s, pan))
+    \/ \E w \in Watchers : Register(w) \/ RegCopy(w) \/ RegDone(w)
     \/ \E w \in Watchers : Start(w)
     \/ \E w \in Watchers, x \in Names : HDelete(w, x) \/ HCreate(w, x) \/ HUpdate(w, x)
 
@@ -186,7 +228,8 @@ ISpec == IInit /\ [][INext]_vars
 
 NoForbiddenCallback == ~bad
 
-Quiescent == \A w \in Watchers : queue[w] = <<>> /\ ~cur[w].on
+(* (a watcher that is being registered is not at rest) *)
+Quiescent == \A w \in Watchers : queue[w] = <<>> /\ ~cur[w].on /\ reg[w] # "copied"
 
 (* everything handled => every obligation discharged and live objects = latest snapshot *)
 Reconciled ==
@@ -202,5 +245,6 @@ NobodyDies == \A w \in Watchers : ~dead[w]
 RegistryIsSnapshot == \A x \in Names : SpecOf(entities[x]) = snap[x]
 WatcherViews ==
     \A w \in Watchers, x \in Names :
+        reg[w] = "yes" =>
         wents[w][x] = (IF entities[x] # NoEnt /\ Wants(w, entities[x].k) THEN entities[x] ELSE NoEnt)
 =============================================================================
